@@ -14,7 +14,8 @@ EXPLANATION = ("Checkpoint discipline: the checkpoint primitives themselves; a t
                "a yield before every normal return, undo when a wait or the shielded yield is interrupted) over every primitive of the "
                "table, with the documented fast_acquire exemption analysed as its own configuration; delegation of the public wrappers; "
                "every anyio.itertools generator and functools.reduce pass a checkpoint on every path to exhaustion under two source models "
-               "(A: synchronous sources, justified by the obligation on _IterableAsyncIterator; B: nothing yielded, arbitrary sources).")
+               "(A: synchronous sources, justified by the obligation on _IterableAsyncIterator; B: nothing yielded, arbitrary sources)."
+               " The fast_acquire exemption is opt-in: every parameter defaults to False, every call forwards the caller's own flag, the field stores the parameter.")
 NOT_DECIDED = "That the event loop actually ran other callbacks during a yield (asyncio), the uvloop / eager-task-factory configurations."
 
 ITER = "itertools.py"
